@@ -138,9 +138,28 @@ def vecSet (name : String) (stored : Json) (stamp now : Json) (arg : Json) : Jso
       ("err", match r.2 with | none => Json.null | some e => Json.str e.toString)])
   | _, _, _, _, _ => bad "vec_set"
 
+open Nix.VecWrite Nix.Generated.WriteOrder in
+/-- `["vec_ticks", stored, linked, arg]`: the `RangeDimension.ticks` setter on `rangeTicks` -/
+def vecTicks (stored : Json) (linked : Json) (arg : Json) : Json :=
+  let ds? : Option (Option Dataset) :=
+    if isNull stored then some none
+    else ((jArr stored).toList.mapM fun v => parseRat (jStr v)).map fun vs => some { rank := 1, vals := vs }
+  match ds?, parseVArg arg with
+  | some ds, some x =>
+    let r := runWith writeDataSteps rangeTicks { x := x, now := 9, file := { ds := ds, stamp := 5, link := jBool linked } }
+    ok (Json.mkObj [
+      ("ds", match r.1.file.ds with
+        | none => Json.null
+        | some d => Json.arr #[Json.num d.rank, Json.arr (d.vals.map fun q => Json.str (ratStr q)).toArray]),
+      ("link", Json.bool r.1.file.link),
+      ("stamp", Json.num r.1.file.stamp),
+      ("err", match r.2 with | none => Json.null | some e => Json.str e.toString)])
+  | _, _ => bad "vec_ticks"
+
 def step (g : Graph) (j : Json) : Graph × Json :=
   match (jArr j).toList with
   | [.str "vec_set", .str name, stored, stamp, now, arg] => (g, vecSet name stored stamp now arg)
+  | [.str "vec_ticks", stored, linked, arg] => (g, vecTicks stored linked arg)
   | [.str "create_block", nm, .str ty] =>
     match parseName g nm with
     | some name => reached (createBlockW g name ty)
